@@ -27,6 +27,8 @@ pub struct S { pub x: i32, pub y: i32 }
 pub struct G<T>(pub T);
 pub struct MyType;
 pub struct Other;
+pub trait R<'x> { fn r(&self) -> &'x i32 { unimplemented!() } }
+pub trait P<'x, 'y> { fn p(&self) -> (&'x i32, &'y i32) { unimplemented!() } }
 """
 
 # (pattern, type) pairs that are consistent with each other
@@ -230,6 +232,43 @@ def build_cases(seed, tier):
     cases.append(CCase("TrR2", "fn f(deps: G<i32>, a: i32) -> i32 { unimplemented!() }", None, "regression"))
     cases.append(CCase("TrR3", "async fn f(deps: G<i32>, a: i32) -> i32 { unimplemented!() }", None, "regression"))
     cases.append(CCase("", "pub trait TqR4 { fn m(self, x: i32) -> i32; fn r(&self) -> i32; }", None, "regression"))
+    # higher-ranked bounds, inline and in where clauses, on the dependency and on other parameters (F23, repaired)
+    for i, (gen, deps, wh) in enumerate([
+            ("<D>", "deps: &D", "for<'x> D: R<'x>"), ("<D>", "deps: &D", "for<'x> D: R<'x> + Send, D: Sync"),
+            ("<D: for<'x> R<'x>>", "deps: &D", ""), ("<D>", "deps: &D", "D: for<'x> R<'x> + A"), ("<D>", "deps: &D", "for<'x,> D: (R<'x>)"),
+            ("<D>", "deps: &D", "for<> D: A"), ("<D>", "deps: &D", "for<'x, 'y> D: P<'x, 'y> + ::core::marker::Send + 'static"),
+            ("<D>", "deps: D", "for<'x> D: R<'x> + Send + Sync + 'static"), ("<D: A, T>", "deps: &D, t: T", "for<'x> T: Fn(&'x i32) -> &'x i32"),
+            ("<T>", "deps: &impl A, t: T", "for<'x> T: R<'x>"), ("<T>", "deps: &App, t: T", "for<'x> &'x T: Into<i32>"),
+            ("<D, T>", "deps: &D, t: T", "for<'x> D: R<'x>, for<'y> T: R<'y> + Send"), ("", "deps: &(impl for<'x> R<'x> + A)", "")]):
+        for asy in ("", "async "):
+            if asy and "Fn(" in wh:
+                continue
+            if asy and "T" in gen:
+                wh = wh + ", T: Send + Sync"     # the generated trait asks for a `Send` future
+            cases.append(CCase("pub TrH%d%s" % (i, "a" if asy else "s"), "pub %sfn h%s(%s) -> i32%s { unimplemented!() }" % (
+                asy, gen, deps, " where " + wh if wh else ""), None, "hrtb"))
+    cases.append(CCase("pub MH", "pub mod m { use super::*; pub fn h0<D>(deps: &D) where for<'x> D: R<'x> { unimplemented!() } "
+                       "pub fn h1<D>(deps: &D, a: i32) where D: A, for<'y> D: R<'y> + B { unimplemented!() } }", None, "hrtb"))
+    cases.append(CCase("TdImplH, delegate_by = SelH", "pub trait TdH { fn m0(&self) -> i32; }\npub struct Ty;\n#[entrait()]\nimpl TdImplH for Ty { "
+                       "fn m0<D>(deps: &D) -> i32 where for<'x> D: R<'x> { unimplemented!() } }", None, "hrtb"))
+    # return types with elided lifetimes: the method must keep the function's lifetime relations. A `no_deps` function that
+    # borrows from an argument through an elided lifetime is F22 (the added `&self` captures the elision)
+    for i, (attr, sig, kn) in enumerate([
+            ("", "fn e(deps: &impl A) -> &i32", None), ("", "fn e<D: A>(deps: &D) -> &D", "F24"), ("", "fn e(deps: impl A, x: &str) -> &str", None),
+            ("", "fn e<D: A>(deps: D, x: &str) -> &str", None), ("", "fn e(deps: &impl A, x: &str) -> &'static str", None),
+            ("", "fn e<'a>(deps: &impl A, x: &'a str, y: &str) -> &'a str", None), ("", "fn e(deps: &App) -> &App", None),
+            ("", "fn e(deps: &impl A, x: &mut Vec<i32>) -> usize", None), ("", "fn e(deps: &impl A) -> Box<dyn Iterator<Item = i32> + '_>", None),
+            ("no_deps", "fn e(x: &str) -> usize", None), ("no_deps", "fn e<'a>(x: &'a str, y: &str) -> &'a str", None),
+            ("no_deps", "fn e(x: &'static str) -> &'static str", None),
+            ("no_deps", "fn e(x: &str) -> &str", "F22"), ("no_deps", "fn e(x: &str, n: usize) -> &str", "F22"),
+            ("no_deps", "fn e(x: &mut Vec<i32>) -> std::slice::Iter<'_, i32>", "F22"), ("no_deps", "fn e(x: &[u8]) -> Option<&u8>", "F22")]):
+        for asy in ("", "async "):
+            cases.append(CCase(", ".join(["pub TrE%d%s" % (i, "a" if asy else "s")] + ([attr] if attr else [])),
+                               "pub %s%s { unimplemented!() }" % (asy, sig), kn, "elided"))
+    # the dependency's own type parameter named in another parameter or in the return type (F24)
+    cases.append(CCase("pub TrS0", "pub fn s<D: A>(deps: &D, other: &D) -> i32 { unimplemented!() }", "F24", "elided"))
+    cases.append(CCase("pub TrS1", "pub fn s<D: A + Clone>(deps: &D) -> D { unimplemented!() }", "F24", "elided"))
+    cases.append(CCase("pub ME, no_deps", "pub mod m { use super::*; pub fn e0(x: &str) -> &str { unimplemented!() } pub fn e1(a: i32) -> i32 { a } }", "F22", "elided"))
     # F21: raw identifiers next to generated / function names
     cases.append(CCase("TrR5", "fn rawy(_: &impl A, _: i32, r#arg0: i32) -> i32 { unimplemented!() }", None, "regression"))
     cases.append(CCase("TrR6", "fn foo(_: &impl A, r#foo: i32) -> i32 { unimplemented!() }", None, "regression"))
@@ -306,7 +345,7 @@ def check_crate(root):
 
 def run_probe(seed, tier):
     """returns dict(cases=[descr], failing={cid: [(code, msg)]}, rounds, unattributed, clean)"""
-    key = sha(repo_tree_hash(), hash_files([os.path.abspath(__file__)]), str(seed), tier)[:20]
+    key = sha(repo_tree_hash(), hash_files([os.path.abspath(__file__), os.path.join(VERIF, "known_findings.json")]), str(seed), tier)[:20]
     root = os.path.join(WORK, "cprobe", key)
     done = os.path.join(root, "result.json")
     if os.path.exists(done):
